@@ -76,4 +76,3 @@ template <int N, int RR, int DD> static void delta_model() {   // values R in [-
     if (DD > 1) { if (q > 2) { VWITNESS("delta-with-denominator-above-two"); } }
 }
 extern "C" void h_delta_model_1() { delta_model<1, 3, 2>(); }
-extern "C" void h_delta_model_2() { delta_model<2, 1, 1>(); }
